@@ -6,6 +6,7 @@ extern "C" {
 #include <ufw/rfc1055.h>
 void slipsim_static_context(RFC1055Context *out, int with_sof);   // RFC1055_CONTEXT_INIT_DEFAULT / _WITH_SOF (sim/slipmacros.c)
 size_t slipsim_worst_case(size_t n, int with_sof);                // RFC1055_WORST_CLASSIC / _WITHSOF
+size_t slipsim_worst_case_expr(size_t a, size_t b, int usesof);   // RFC1055_WORST_CASE(a + b, usesof ? RFC1055_WITH_SOF : RFC1055_DEFAULT)
 }
 static bool g_static_init = false;   // contexts come from the header's static initialisers instead of rfc1055_context_init()
 static void init_context(RFC1055Context *ctx, bool sof) { if (g_static_init) slipsim_static_context(ctx, sof); else rfc1055_context_init(ctx, sof ? RFC1055_WITH_SOF : RFC1055_DEFAULT); }
@@ -226,6 +227,8 @@ struct SlipHarness : Harness {
             const Bytes &o = e.out;
             size_t n = F[i].size();
             size_t bound = RFC1055_WORST_CASE(n, sof);
+            if (slipsim_worst_case_expr(n / 2, n - n / 2, sof) != bound || RFC1055_WORST_CASE(n / 2 + (n - n / 2), sof ? RFC1055_WITH_SOF : RFC1055_DEFAULT) != 2 * n + (sof ? 2 : 1))
+                c.fail("bound.macros", "RFC1055_WORST_CASE with expression arguments gives %zu for %zu octets, %s", slipsim_worst_case_expr(n / 2, n - n / 2, sof), n, sof ? "with start-of-frame" : "classic");
             if (slipsim_worst_case(n, sof) != bound) c.fail("bound.macros", "RFC1055_WORST_%s(%zu) = %zu, RFC1055_WORST_CASE gives %zu", sof ? "WITHSOF" : "CLASSIC", n, slipsim_worst_case(n, sof), bound);
             if (o.size() > bound || o.size() > 2 * n + (sof ? 2 : 1)) c.fail("bound.encode", "encoding of %zu octets is %zu long, bound %zu", n, o.size(), bound);
             size_t ends = 0; for (uint8_t x : o) if (x == END) ++ends;
